@@ -33,6 +33,48 @@ def canonical(case):
     return json.dumps(case, sort_keys=True, default=repr)
 
 
+def apply_step(step, report, objs, requested):
+    from pedal.core import commands
+    from pedal.resolvers import full
+    kind = step[0]
+    if kind == 'suppress':
+        kw = {k: (dict(v) if isinstance(v, dict) else v) for k, v in step[1].items()}
+        commands.suppress(report=report, **kw)
+        requested.append(dict(step[1]))
+    elif kind in ('muted', 'priority', 'category', 'score', 'unscored') and objs:
+        setattr(objs[step[1] % len(objs)], kind, step[2])
+    elif kind == 'resolve-full-first':
+        full.resolve(report)
+    # 'nothing-at-all': just resolve again
+
+
+def gen_steps(rng, spec):
+    from gen import reports
+    steps = []
+    for _ in range(rng.choice([1, 1, 2, 3])):
+        r = rng.random()
+        k = len(spec['feedbacks'])
+        if r < 0.2:
+            steps.append(['nothing-at-all'])
+        elif r < 0.3:
+            steps.append(['resolve-full-first'])
+        elif r < 0.5 and k:
+            steps.append(['muted', rng.randrange(k), rng.choice([True, False])])
+        elif r < 0.65 and k:
+            steps.append(['priority', rng.randrange(k), rng.choice(['highest', 'lowest', 'high', 'low', 'syntax', 'positive', None])])
+        elif r < 0.72 and k:
+            steps.append(['category', rng.randrange(k), rng.choice(['syntax', 'runtime', 'student', 'positive', 'instructor'])])
+        elif r < 0.8 and k:
+            steps.append(['score', rng.randrange(k), rng.choice(reports.SCORES_GRID)])
+        else:
+            sups = reports.gen_suppressions(rng, spec['feedbacks'])
+            if sups:
+                steps.append(['suppress', sups[0]])
+            else:
+                steps.append(['nothing-at-all'])
+    return steps
+
+
 def run_case(ctx, which, case):
     from gen import reports
     from oracles import resolver_model as model
@@ -49,12 +91,18 @@ def run_case(ctx, which, case):
         ctx.count('construction_raised')
         ctx.seen('construction_errors', '%s@%s' % (type(ex).__name__, site_of(ex)))
         return
+    requested = [dict(s_) for s_ in spec['suppressions']]
     try:
         final = simple.resolve(report)
         if more is not None:
             # history: resolve, add more feedback to the same report, resolve again
             more()
             ctx.count('re_resolves_after_more_feedback')
+            final = simple.resolve(report)
+        for step in case.get('then', []):
+            # history: the same report is resolved again, possibly after the instructor changed something in between
+            apply_step(step, report, objs, requested)
+            ctx.count('re_resolves_after_%s' % step[0])
             final = simple.resolve(report)
     except Exception as ex:
         if which == 'C01':
@@ -66,7 +114,7 @@ def run_case(ctx, which, case):
         return
     ctx.count('resolves_checked')
     try:
-        problems, e = model.check(report, final, which=(which,))
+        problems, e = model.check(report, final, which=(which,), requested=requested)
     except model.Unmodelled as u:
         ctx.count('unmodelled')
         ctx.seen('unmodelled_reasons', str(u)[:60])
@@ -115,7 +163,7 @@ def run_case(ctx, which, case):
         try:
             report2, objs2 = reports.build(spec, order)
             final2 = full.resolve(report2)
-            e2 = model.expected(report2)
+            e2 = model.expected(report2, [dict(s_) for s_ in spec['suppressions']])
             ctx.count('full_resolves_checked')
             for fb in final2.used:
                 st = e2.status.get(id(fb), '?')
@@ -149,6 +197,14 @@ def run_generated(ctx, which, n):
             if rng.random() < 0.3:
                 run_case(ctx, which, {'spec': spec, 'order': order, 'split': rng.randrange(0, k)})
                 done += 1
+        if rng.random() < 0.35:
+            run_case(ctx, which, {'spec': spec, 'order': None, 'then': gen_steps(rng, spec)})
+            done += 1
+        if rng.random() < 0.2:
+            spec2 = dict(spec)
+            spec2['pre_use'] = reports.gen_suppressions(rng, spec['feedbacks']) + [{'label': f['kw']['label']} for f in spec['feedbacks'][:2] if f['kw'].get('label')]
+            run_case(ctx, which, {'spec': spec2, 'order': None})
+            done += 1
     ctx.count('generated_cases', done)
 
 
